@@ -116,8 +116,8 @@ Definition node_length (b : blk) : res Z :=
   | Pb d ls =>
     let from_links := match link_sizes (node_meta d) 0 ls with
                       | Ok sizes => Ok (fold_right Z.add 0 sizes)
-                      | Err EUnmodelled => Err EUnmodelled
-                      | _ => Ok 0
+                      | Err e => Err e          (* lengthFromLinks reports what linkSize reports *)
+                      | Panic => Err EOther
                       end in
     match node_meta d with
     | Some m => match d_filesize m with Some fs => Ok (i64 fs) | None => from_links end
